@@ -1,10 +1,13 @@
 package fullstack
 
 import (
+	"context"
 	"errors"
 	"fmt"
 	"sync"
+	"sync/atomic"
 	"testing"
+	"time"
 
 	"github.com/ipfs/go-cid"
 	"github.com/ipld/go-ipld-prime/node/basicnode"
@@ -20,6 +23,7 @@ import (
 )
 
 const verifExt = graphsync.ExtensionName("verif/ext")
+const thirdPartyMarker = graphsync.ExtensionName("verif/third-party")
 
 // TestC09: responses from other peers cannot affect a request.
 func TestC09(t *testing.T) {
@@ -54,7 +58,16 @@ func TestC09(t *testing.T) {
 		B := w.AddGS("B", sb, NodeOpts{})
 		T := w.AddRaw("T")
 		// the requestor's response hook behaves like a real consumer of an extension
+		var markerSeen int32
+		A.OnIncomingBlock = func(pp peer.ID, rs graphsync.ResponseData, b graphsync.BlockData, a graphsync.IncomingBlockHookActions) {
+			if _, ok := rs.Extension(thirdPartyMarker); ok {
+				atomic.StoreInt32(&markerSeen, 1)
+			}
+		}
 		A.OnResponse = func(pp peer.ID, rs graphsync.ResponseData, a graphsync.IncomingResponseHookActions) {
+			if _, ok := rs.Extension(thirdPartyMarker); ok {
+				atomic.StoreInt32(&markerSeen, 2)
+			}
 			if d, ok := rs.Extension(verifExt); ok && d != nil {
 				if s, err := d.AsString(); err == nil {
 					switch s {
@@ -93,7 +106,7 @@ func TestC09(t *testing.T) {
 					}
 					md = append(md, gsmsg.GraphSyncLinkMetadatum{Link: k, Action: allActions[r.Intn(4)]})
 				}
-				var exts []graphsync.ExtensionData
+				exts := []graphsync.ExtensionData{{Name: thirdPartyMarker, Data: basicnode.NewString("from-third-party")}}
 				kind := "plain"
 				switch r.Intn(4) {
 				case 0:
@@ -162,6 +175,9 @@ func TestC09(t *testing.T) {
 					break
 				}
 			}
+			if ms := atomic.LoadInt32(&markerSeen); ms != 0 {
+				rep.Violation(ci, "C09/hook-saw-third-party-response-data", fmt.Sprintf("a requestor %s hook was handed response data (status/extensions) that came from the third peer", map[int32]string{1: "block", 2: "response"}[ms]), detail())
+			}
 			for _, m := range w.Fab.Wire() {
 				if m.From == A.ID && m.To == T.ID {
 					rep.Violation(ci, "C09/message-sent-to-third-party", "requestor sent a message to the third peer: "+fab.Brief(m), detail())
@@ -184,6 +200,150 @@ func TestC09(t *testing.T) {
 			s := c.Describe()
 			s["injected_kinds"] = kinds
 			rep.Sample(s)
+		}
+		pert.Stop()
+		w.Close()
+	}
+	rep.Flush(true)
+}
+
+// TestC09Reuse: a caller-chosen request id is used for a request to peer B1 that is paused and
+// cancelled, then re-used for a request to peer B2. Responses that B1 (now a third party for that
+// id) still sends must not reach hooks or affect the new request.
+func TestC09Reuse(t *testing.T) {
+	p := rt.Load()
+	rep := rt.NewReporter(p)
+	defer rep.Flush(false)
+	for _, ci := range p.Cases() {
+		var c *Case
+		for k := 0; ; k++ {
+			c = GenCase(p, fmt.Sprintf("c09r-%d", k), ci, "")
+			if !samePathTwice(c) && len(c.Full.Loads) > 3 {
+				break
+			}
+		}
+		r := p.RNG("c09rx", ci)
+		all := map[cid.Cid]bool{}
+		for k := range c.DAG.Blocks {
+			all[k] = true
+		}
+		c = MakeCase(ci, c.DAG, c.Sel, c.SelKind, map[cid.Cid]bool{}, all)
+		rep.Journal("case %d blocks=%d", ci, len(c.DAG.Blocks))
+		w := NewWorld()
+		pert := NewPerturber(r.Int63(), 1)
+		sa := store.New("A.store", w.Log)
+		A := w.AddGS("A", sa, NodeOpts{})
+		sb1 := store.New("B1.store", w.Log)
+		sb2 := store.New("B2.store", w.Log)
+		Fill(sb1, c.DAG, all)
+		Fill(sb2, c.DAG, all)
+		B1 := w.AddGS("B1", sb1, NodeOpts{})
+		B2 := w.AddGS("B2", sb2, NodeOpts{})
+		id := graphsync.NewRequestID()
+		var phase int32 // 0: first request (pause at block 1), 1: second request
+		var markerSeen int32
+		pausedCh := make(chan struct{}, 1)
+		A.OnIncomingBlock = func(pp peer.ID, rs graphsync.ResponseData, b graphsync.BlockData, a graphsync.IncomingBlockHookActions) {
+			if _, ok := rs.Extension(thirdPartyMarker); ok {
+				atomic.StoreInt32(&markerSeen, 1)
+			}
+			if atomic.LoadInt32(&phase) == 0 && b.Index() == 1 {
+				a.PauseRequest()
+				select {
+				case pausedCh <- struct{}{}:
+				default:
+				}
+			}
+		}
+		A.OnResponse = func(pp peer.ID, rs graphsync.ResponseData, a graphsync.IncomingResponseHookActions) {
+			if _, ok := rs.Extension(thirdPartyMarker); ok {
+				atomic.StoreInt32(&markerSeen, 2)
+				a.TerminateWithError(errors.New("verif: third-party response reached the response hook"))
+			}
+		}
+		inc := ""
+		req1 := w.RequestWithID(id, A, B1.ID, c.DAG.Root, c.Sel)
+		select {
+		case <-pausedCh:
+		case <-req1.Done():
+		case <-time.After(30 * time.Second):
+			inc = "first request neither paused nor finished"
+		}
+		if ok, why := w.Quiesce(); !ok && inc == "" {
+			inc = why
+		}
+		// cancel while paused (cancel API; the context stays alive), then re-use the id for B2
+		ctx, cancel := context.WithTimeout(context.Background(), 30*time.Second)
+		_ = A.GS.Cancel(ctx, id)
+		cancel()
+		select {
+		case <-req1.Done():
+		case <-time.After(30 * time.Second):
+			if inc == "" {
+				inc = "first request did not end after Cancel"
+			}
+		}
+		if ok, why := w.Quiesce(); !ok && inc == "" {
+			inc = why
+		}
+		atomic.StoreInt32(&phase, 1)
+		nInject := 1 + r.Intn(3)
+		l := w.Fab.Link(B2.ID, A.ID)
+		l.Delay = pert.LinkDelay()
+		injected := 0
+		pos := 1 + r.Intn(3)
+		nd := 0
+		inject := func() {
+			for i := 0; i < nInject; i++ {
+				st := allStatuses[r.Intn(len(allStatuses))]
+				_ = RawSendResponse(B1.Net, A.ID, []gsmsg.GraphSyncResponse{gsmsg.NewResponse(id, st, nil, graphsync.ExtensionData{Name: thirdPartyMarker, Data: basicnode.NewString("from-old-peer")})}, nil)
+				injected++
+			}
+		}
+		l.AfterDeliver = func(*fab.WireMsg) {
+			nd++
+			if nd == pos {
+				inject()
+			}
+		}
+		var req2 *Req
+		hung := false
+		if inc == "" {
+			req2 = w.RequestWithID(id, A, B2.ID, c.DAG.Root, c.Sel)
+			hung, inc = AwaitDone(w, req2)
+			if inc == "" && !hung {
+				if ok, why := w.Quiesce(); !ok {
+					inc = why
+				}
+			}
+		}
+		rep.Eval()
+		detail := func() map[string]any {
+			d := c.Describe()
+			d["injected_by_old_peer"] = injected
+			d["event_log_tail"] = w.Log.Tail(60)
+			return d
+		}
+		switch {
+		case inc != "":
+			rep.Inconclusive("case %d: %s", ci, inc)
+		case hung:
+			rep.Violation(ci, "C09/request-never-finished", "system quiescent but the re-issued request is still open", detail())
+		default:
+			if ms := atomic.LoadInt32(&markerSeen); ms != 0 {
+				rep.Violation(ci, "C09/hook-saw-third-party-response-data", "after the request id was re-used for another peer, a response from the old peer reached a requestor hook", detail())
+			}
+			// the second request starts with whatever the first one already stored
+			exp := MakeCase(ci, c.DAG, c.Sel, c.SelKind, map[cid.Cid]bool{}, all).Exp
+			_ = exp
+			prog, errs, _, _ := req2.Snapshot()
+			if len(prog) != len(c.Full.Visits) || len(errs) != 0 {
+				rep.Violation(ci, "C09/outcome-changed", fmt.Sprintf("re-issued request delivered %d nodes (reference %d) and %d errors", len(prog), len(c.Full.Visits), len(errs)), detail())
+			}
+			if injected > 0 {
+				rep.Nontrivial(rt.Key("reuse", c.DAG.Root, SelJSON(c.Sel), ci))
+				rep.Count("old_peer_messages_injected", int64(injected))
+			}
 		}
 		pert.Stop()
 		w.Close()
